@@ -14,8 +14,8 @@ by the correspondence stream of `./check C04`).
 * `boardsLast_sound_partial`: moving board blocks last (and dropping empty ones) preserves the evaluation whenever no
   non-board declaration follows a non-empty scenarios / steps block in the same board root (`okL`); layers blocks
   may stand anywhere.
-* The unrestricted statement is false: `C04_cx_board_order`.  Keyword lower-casing of VALUES changes labels:
-  `C04_cx_value_case`.  Both are replayed on the implementation by the check's corpus.
+* The unrestricted statement is false: `C04_cx_board_order`.  Keyword lower-casing is restricted to key
+  position (`C04_values_keep_case`, tie R); the former counterexample `x: Label` is `C04_value_case_iff`.
 -/
 namespace D2V.FmtSem
 open D2V.Fmt
@@ -71,14 +71,36 @@ def cxValueCase : N :=
   .map false [.mnode false true (.key { amp := 0, key := some [⟨.u, "x".toList, "x".toList⟩], src := none, hops := [], eidx := .none, ekey := none }
     none (.scalar (.str ⟨.u, "Label".toList, "Label".toList⟩)))]
 
-/-- the printer lower-cases the unquoted VALUE `Label` because it equals a reserved keyword up to case:
-    the label of `x` is no longer the text the user wrote -/
-theorem C04_cx_value_case :
-    labelsOf (lowerKeywords cxValueCase) = [("x".toList, "label".toList)] ∧
-    labelsOf cxValueCase = [("x".toList, "Label".toList)] := by decide
+/-- Values keep their spelling: the keyword lower-casing never touches a scalar in value / primary position.
+    Tie R: this holds because the regenerated flag says printer.interpolationBoxes lower-cases only under `p.inKey`
+    (fix 065a7fd9a); if that restriction is removed the proof breaks and the check searches. -/
+theorem C04_values_keep_case (s : Scalar) : lowerKeywords (.scalar s) = .scalar s := by
+  cases s with
+  | str x =>
+    obtain ⟨q, raw, val⟩ := x
+    cases q <;> simp [lowerKeywords, normScalar, normStr, lowersHere, D2V.Gen.FmtKw.lowerOnlyInKey]
+  | _ => simp [lowerKeywords, normScalar]
 
-/-- what the re-parse of the formatted text holds is the same rewrite (layout aside) -/
-theorem C04_cx_value_case_reparsed : labelsOf (normFile cxValueCase) = [("x".toList, "label".toList)] := by decide
+/-- … also as the primary value of a key -/
+theorem C04_primary_keeps_case (p : Option Scalar) : p.map normScalar = p := by
+  cases p with
+  | none => rfl
+  | some s =>
+    cases s with
+    | str x =>
+      obtain ⟨q, raw, val⟩ := x
+      cases q <;> simp [normScalar, normStr, lowersHere, D2V.Gen.FmtKw.lowerOnlyInKey]
+    | _ => simp [normScalar]
+
+/-- `x: Label` keeps the label `Label` exactly when the lower-casing is restricted to keys — stated so that it
+    type-checks for either shape of the source: on the fixed tree it says the former counterexample is gone. -/
+theorem C04_value_case_iff :
+    (labelsOf (lowerKeywords cxValueCase) = [("x".toList, "Label".toList)]) ↔ D2V.Gen.FmtKw.lowerOnlyInKey = true := by
+  decide
+
+theorem C04_value_case_reparsed_iff :
+    (labelsOf (normFile cxValueCase) = [("x".toList, "Label".toList)]) ↔ D2V.Gen.FmtKw.lowerOnlyInKey = true := by
+  decide
 
 end D2V.FmtSem
 
